@@ -74,8 +74,10 @@ enum Pat {
     /// N intervals whose first (immediate) tick is awaited by one task and whose 1 s tick is
     /// awaited by another task the interval was moved into
     IntervalMovedToAnotherTask,
+    /// timers for 0.5 s and 2 s are armed first, then N tasks sleep to 1 s (a deadline between the two)
+    TimerArmedBetweenTwoOthers,
 }
-const PATS: [Pat; 26] = [
+const PATS: [Pat; 27] = [
     Pat::Sleepers,
     Pat::Chain,
     Pat::NotifyAll,
@@ -102,6 +104,7 @@ const PATS: [Pat; 26] = [
     Pat::RestartAfterPendingTimer,
     Pat::TwinTimersFirstDropped,
     Pat::IntervalMovedToAnotherTask,
+    Pat::TimerArmedBetweenTwoOthers,
 ];
 
 #[derive(Clone, Copy, Debug, PartialEq, Eq)]
@@ -230,6 +233,20 @@ impl Module for Mo {
                             l.lock().unwrap().push((i as u32, now()));
                         });
                     }
+                }
+            }
+            Pat::TimerArmedBetweenTwoOthers => {
+                for d in [500u64, 2000] {
+                    spawn_kind(k, async move {
+                        sleep(Duration::from_millis(d)).await;
+                    });
+                }
+                for i in 0..n {
+                    let l = self.log.clone();
+                    spawn_kind(k, async move {
+                        sleep(Duration::from_secs(1)).await;
+                        l.lock().unwrap().push((i as u32, now()));
+                    });
                 }
             }
             Pat::IntervalMovedToAnotherTask => {
@@ -533,6 +550,7 @@ fn polls_needed(c: &Case) -> usize {
         Pat::Drain => 1,
         Pat::Yield => 1 + c.n,
         Pat::JoinAll | Pat::TimerThenNotify | Pat::ElementEndHookOnTimer => c.n + 1,
+        Pat::TimerArmedBetweenTwoOthers => c.n + 2,
         Pat::SleepBehindCancelledTimer | Pat::IntervalMovedToAnotherTask => 3 * c.n,
         _ => c.n,
     }
@@ -681,7 +699,7 @@ impl Property for C06 {
                         Pat::NotifyThenShutdown | Pat::NotifyThenRestart | Pat::SleepersThenShutdown | Pat::StartThenShutdown => ctx.hit("shutdown_requested_in_the_event"),
                         Pat::StartStage => ctx.hit("start_stage_trigger"),
                         Pat::Sleepers => ctx.hit("timer_trigger"),
-                        Pat::SleepBehindCancelledTimer | Pat::SleepResetToLater | Pat::TwinTimersFirstDropped | Pat::IntervalMovedToAnotherTask => ctx.hit("timer_behind_cancelled_timer"),
+                        Pat::SleepBehindCancelledTimer | Pat::SleepResetToLater | Pat::TwinTimersFirstDropped | Pat::IntervalMovedToAnotherTask | Pat::TimerArmedBetweenTwoOthers => ctx.hit("timer_behind_cancelled_timer"),
                         Pat::NotifyAll => ctx.hit("message_trigger"),
                         Pat::ElementConsumes | Pat::ElementStartHook | Pat::ElementEndHook | Pat::ElementEndHookOnTimer | Pat::ElementEndHookOnStart => ctx.hit("processing_element_trigger"),
                         _ => {}
